@@ -7,12 +7,12 @@ CONSTANTS
   PRs <- PR_ones
   MinN = 2
   CurK = 3
-  MaxRound = 4
+  MaxRound = 5
   MaxCycle = 1
   Flaky = {}
   LagOn = FALSE
   RestMayFail = FALSE
   StoreByNumber = TRUE
-  MaxFaults = 2
+  MaxFaults = 1
 INVARIANTS TypeOK KeyShareConsistent SameSwitch MagicBlockComplete SosOfStoredVector NoCrash AllWaitedAllInstall AckMeansShare
 CHECK_DEADLOCK FALSE
